@@ -1334,3 +1334,7 @@ mod tests {
         }
     }
 }
+
+#[cfg(maidsafe_safe_network_verif)]
+#[path = "verif/driver.rs"]
+pub mod verif;
